@@ -1,6 +1,6 @@
 import Driver.Proto
 import ScrapliModel.OptionsSpec
-namespace Driver
+namespace Driver.C19
 open Scrapli Scrapli.Options Scrapli.Gen.Options
 
 namespace C19
@@ -124,4 +124,4 @@ def handleC19 : List String → String
     | _, _ => "bad-op"
   | _ => "bad-op"
 
-end Driver
+end Driver.C19
